@@ -1,1 +1,167 @@
+/-
+  Property C10 — recovering a signer from arbitrary raw transaction bytes is total and sound.
+  Model: FFS.Model.Tx (mirrors pkg/ethsigner/transaction.go after the fix: commit that added shape validation),
+  over Model.Rlp (C06) and Model.Secp (C05). Curve library is a parameter.
+-/
 import FFS.Model.Tx
+import FFS.Props.C05
+import FFS.Props.C06
+namespace FFS.Props.C10
+open FFS FFS.Model.Tx FFS.Model.Rlp FFS.Model.Secp FFS.Gen.TxConsts
+
+/-- The regenerated facts say the shape validation and the exact chain-id comparison are present. -/
+theorem validation_present :
+    legacyValidates = true ∧ e1559Validates = true ∧ e1559ChainIdExact = true := by decide
+
+theorem validTxScalars_ne_panic_of_lt (l : List Item) (ints bytesF : List Nat) (to : Nat)
+    (h : ∀ i ∈ ints ++ bytesF ++ [to], i < l.length) : validTxScalars l ints to bytesF ≠ .panic := by
+  unfold validTxScalars
+  split
+  · rename_i hany
+    simp only [List.any_eq_true, decide_eq_true_eq] at hany
+    obtain ⟨i, hi, hle⟩ := hany
+    have := h i hi
+    omega
+  · simp
+
+theorem validTxScalars_int {l : List Item} {ints bytesF : List Nat} {to : Nat}
+    (h : validTxScalars l ints to bytesF = .ok true) (i : Nat) (hi : i ∈ ints) :
+    isCanonInt (l.getD i (.list [])) = true := by
+  unfold validTxScalars at h
+  split at h
+  · cases h
+  · injection h with h
+    simp only [Bool.and_eq_true, List.all_eq_true] at h
+    exact h.1.1 i hi
+
+theorem itemInt_of_canon {it : Item} (h : isCanonInt it = true) : ∃ n, itemInt it = some n := by
+  cases it with
+  | str b => exact ⟨fromBE b, rfl⟩
+  | list xs => simp [isCanonInt] at h
+
+theorem recoverCommon_ne_panic (C : Curve) (tx : Tx) (m : Bytes) (cid v : Int) (r s : Bytes) :
+    recoverCommon C tx m cid v r s ≠ .panic := by
+  unfold recoverCommon Model.Secp.recover
+  have := C05.recover_total C { V := some v, R := some (fromBE r), S := some (fromBE s) } (Prim.keccak256 m) cid
+  split
+  · simp
+  · simp
+  · rename_i hp; exact absurd hp this
+
+/-- `RecoverLegacyRawTransaction` never panics. -/
+theorem recoverLegacy_total (C : Curve) (raw : Bytes) (cid : Int) : recoverLegacy C raw cid ≠ .panic := by
+  unfold recoverLegacy
+  split
+  · simp
+  · rename_i hp; exact absurd hp (C06.decode_total raw)
+  · rename_i decoded pos hd
+    split
+    · rename_i l
+      split
+      · simp
+      · rename_i hshort
+        have hlen : 9 ≤ l.length := by
+          simp only [legacyTooShort, Bool.false_or, decide_eq_true_eq] at hshort; omega
+        have hnp : validateLegacy l ≠ .panic := by
+          simp only [validateLegacy, validation_present.1, if_true]
+          apply validTxScalars_ne_panic_of_lt
+          intro i hi
+          simp only [legacyInts, legacyBytes, legacyTo, List.mem_append, List.mem_cons, List.mem_nil_iff,
+            or_false] at hi
+          omega
+        split
+        · rename_i hp; exact absurd hp hnp
+        · simp
+        · simp
+        · rename_i hv
+          simp only [validateLegacy, validation_present.1, if_true] at hv
+          obtain ⟨n, hn⟩ := itemInt_of_canon (validTxScalars_int hv 6 (by simp [legacyInts]))
+          simp only [hn]
+          split
+          · split
+            · simp
+            · exact recoverCommon_ne_panic _ _ _ _ _ _ _
+          · exact recoverCommon_ne_panic _ _ _ _ _ _ _
+    · simp
+
+theorem decode1559_total (raw : Bytes) (cid : Int) (minLen : Nat) (hmin : minLen = 9 ∨ minLen = 12) :
+    decode1559 raw cid minLen ≠ .panic := by
+  unfold decode1559
+  split
+  · simp
+  · rename_i b0 rest
+    split
+    · simp
+    · split
+      · simp
+      · rename_i hp; exact absurd hp (C06.decode_total rest)
+      · rename_i decoded pos hd
+        split
+        · rename_i l
+          split
+          · simp
+          · rename_i hlen
+            split
+            · simp
+            · have hnp : validate1559 l minLen ≠ .panic := by
+                simp only [validate1559, validation_present.2.1, if_true]
+                apply validTxScalars_ne_panic_of_lt
+                intro i hi
+                rcases hmin with hm | hm <;> subst hm <;>
+                  simp [e1559Ints, e1559IntsSigned, e1559Bytes, e1559BytesSigned, e1559To] at hi <;> omega
+              split
+              · rename_i hp; exact absurd hp hnp
+              · simp
+              · simp
+              · simp
+        · simp
+
+/-- `RecoverEIP1559Transaction` never panics. -/
+theorem recover1559_total (C : Curve) (raw : Bytes) (cid : Int) : recover1559 C raw cid ≠ .panic := by
+  unfold recover1559
+  split
+  · simp
+  · rename_i hp
+    exact absurd hp (decode1559_total raw cid min1559Signed (Or.inr rfl))
+  · rename_i l tx hd
+    -- element 9 was validated as a canonical integer
+    have h9 : ∃ n, itemInt (l.getD 9 (.list [])) = some n := by
+      unfold decode1559 at hd
+      split at hd
+      · cases hd
+      · split at hd
+        · cases hd
+        · split at hd
+          · cases hd
+          · cases hd
+          · split at hd
+            · split at hd
+              · cases hd
+              · split at hd
+                · cases hd
+                · split at hd
+                  · cases hd
+                  · cases hd
+                  · cases hd
+                  · rename_i hv
+                    simp only [validate1559, validation_present.2.1, if_true] at hv
+                    injection hd with hd; injection hd with h1 h2; subst h1
+                    exact itemInt_of_canon (validTxScalars_int hv 9 (by
+                      simp [min1559Signed, e1559Ints, e1559IntsSigned]))
+            · cases hd
+    obtain ⟨n, hn⟩ := h9
+    simp only [hn]
+    exact recoverCommon_ne_panic _ _ _ _ _ _ _
+
+/-- **Totality.** `RecoverRawTransaction` never panics, for any bytes and chain id. -/
+theorem recover_total (C : Curve) (raw : Bytes) (cid : Int) : recoverRaw C raw cid ≠ .panic := by
+  unfold recoverRaw
+  split
+  · simp
+  · split
+    · exact recoverLegacy_total C _ cid
+    · split
+      · exact recover1559_total C _ cid
+      · simp
+
+end FFS.Props.C10
